@@ -410,8 +410,37 @@ def rule_T1(ctx, rule: str = "T1", only: Optional[Tuple[str, ...]] = None) -> No
             if "submessage" not in kinds or w != 2 or (set(kinds) - {"submessage", "empty"}):
                 ok, why = False, (f"a sub-message must always be encoded as bytes(sub) on wire type 2 (its unknown fields and presence live there; "
                                   f"truthiness of a message ignores unknown fields): enc={kinds} wire={w}")
-            elif not any(k == "submessage" for _, k, _, _ in decs):
-                ok, why = False, f"no decoder path parses the sub-message: {dkinds}"
+            else:
+                # every path that yields a plain sub-message (not a wrapper's value, not a datetime / timedelta) has parsed the
+                # payload into it: the value returned is the result of X.parse(payload), or an object on which parse(payload) was
+                # called on that path
+                post_fn = mod.func("Message._postprocess_single")
+                pp_ = Interp(mod, bindings={N(m.post_params[1]): 2, A(N(m.post_params[2]), "proto_type"): "message"}, inline=_inline_pack_fmt(mod)).run(post_fn)
+                ctx.count(len(pp_))
+                n_plain = 0
+                unparsed = None
+                for p_ in pp_:
+                    if p_.outcome != "return" or p_.value is None:
+                        continue
+                    k_, _d = classify_dec(p_.value, m.dvalue)
+                    if k_ in ("submessage-attr", "submessage-conv", "plain", "none"):
+                        continue
+                    if k_ == "submessage":
+                        n_plain += 1
+                        continue
+                    # a freshly constructed message object (X() without arguments) returned as the field's value
+                    if not (p_.value[0] == "call" and not p_.value[2] and not p_.value[3]):
+                        continue
+                    n_plain += 1
+                    parsed_into = any(e.kind == "call" and e.data[1][0] == "a" and e.data[1][2] in ("parse", "load") and e.data[1][1] == p_.value and e.data[2] and e.data[2][0] == m.dvalue
+                                      for e in p_.events)
+                    if not parsed_into:
+                        unparsed = unparsed or (p_, show(p_.value))
+                if unparsed:
+                    ok, why = False, (f"a decoder path yields {unparsed[1]} without parsing the payload into it (under {val_text(unparsed[0].valuation)}): what the payload carries - "
+                                      "for a class without fields of its own, the unknown fields of a newer schema - is dropped")
+                elif not n_plain:
+                    ok, why = False, f"no decoder path parses the sub-message: {dkinds}"
         if ok:
             ctx.proved(rule, f"dispatch[{t}]", loc_e, detail)
         else:
@@ -975,7 +1004,10 @@ def rule_T5(ctx) -> None:
     for p in pp:
         k, d = classify_dec(p.value, m.dvalue)
         if k != "submessage":
-            continue
+            # the parse may be a statement of its own: X = cls(); X.parse(payload); ... return X
+            if not (p.value is not None and any(e.kind == "call" and e.data[1][0] == "a" and e.data[1][2] in ("parse", "load") and e.data[1][1] == p.value
+                                                and e.data[2] and e.data[2][0] == m.dvalue for e in p.events)):
+                continue
         seen_plain = True
         ok = any(e.kind == "store" and e.data[0][0] == "a" and e.data[0][2] == "_serialized_on_wire" and e.data[0][1] == p.value and e.data[1] == C(True) for e in p.events)
         if not ok:
